@@ -39,6 +39,7 @@ def decodeOp (j : Json) : Except String Op := do
     pure (.sync (← J.getHex j "c") ss)
   | "acq" => pure (.acquire (← J.getHex j "c") (← J.getHex j "n") ((J.getBool j "tb").toOption.getD true))
   | "rel" => pure (.release (← J.getNat j "i"))
+  | "reset" => pure (.reset (← J.getHex j "c") (← J.getHex j "mode"))
   | o => throw s!"unknown op {o}"
 
 def decodeOut (j : Json) : Except String Out := do
@@ -153,11 +154,15 @@ def Full.init : Full := { w := World.init, sys := fun _ => KG.Model.MaxInflight.
 inductive FEv where
   | step (t : Nat)
   | sync (schemas : List Schema)
+  | reset (mode : Str)
 
 def decodeFEv (j : Json) : Except String FEv :=
   match J.optObj j "sync" with
   | some v => do pure (.sync (← (← v.getArr?).toList.mapM decodeSchema))
-  | none => do pure (.step (← J.getNat j "t"))
+  | none =>
+    match J.optObj j "reset" with
+    | some v => do pure (.reset (← J.asHex v))
+    | none => do pure (.step (← J.getNat j "t"))
 
 def Full.nameOf (f : Full) (t : Nat) : Str :=
   if f.names.isEmpty then fullSchema else f.names.getD (t % f.names.length) fullSchema
@@ -183,6 +188,9 @@ def syncSys (w : World) (sys : Nat → KG.Model.MaxInflight.Sys) : Nat → KG.Mo
   | _ => sys i
 
 def fullStep (f : Full) : FEv → Except String (Full × Json)
+  | .reset mode =>
+    let f' : Full := { f with w := resetLimiter f.w fullCluster mode }
+    .ok (f', fullOut f' (f'.nameOf 0) "" "none")
   | .sync schemas =>
     match KG.Model.LocalLimiter.sync f.w fullCluster schemas with
     | .error e => .error e
